@@ -59,6 +59,11 @@ struct hwloc_synthetic_backend_data_s {
   struct hwloc_synthetic_indexes_s numa_attached_indexes;
 
 #define HWLOC_SYNTHETIC_MAX_DEPTH 128
+#if defined(HWLOC_VERIF) && defined(HWLOC_VERIF_SYNTHETIC_MAX_DEPTH)
+/* verification hook: a smaller level array so that bounded checking reaches its boundary */
+#undef HWLOC_SYNTHETIC_MAX_DEPTH
+#define HWLOC_SYNTHETIC_MAX_DEPTH HWLOC_VERIF_SYNTHETIC_MAX_DEPTH
+#endif
   struct hwloc_synthetic_level_data_s level[HWLOC_SYNTHETIC_MAX_DEPTH];
 };
 
